@@ -12,6 +12,7 @@ def dimensionality(rep, M, rid):
     c09.r09_1(rep, M, rid)
     c09.r09_2(rep, M, rid)
     c09.r09_3(rep, M, rid)
+    c09.r09_6(rep, M, rid)
     c01.r01_8_components(rep, M, rid)
 
 
@@ -40,3 +41,25 @@ def normal_form(rep, M, rid):
     c07.r07_3(rep, M, rid)
     SR.index_spaces(rep, M, rid)
     SR.orbit_source(rep, M, rid)
+
+
+def spglib_boundary(rep, M, rid):
+    """what goes into spglib is the analysed structure unmodified (cell, scaled positions, numbers of one object), the analyzer's tolerance
+    reaches it, and what comes back (std_lattice, std_positions, std_types) is used without a change of convention"""
+    from . import c05
+    from .. import symrules as SR
+    c05.r05_5(rep, M, rid)
+    c05.r05_5b(rep, M, rid)
+    SR.tolerance_reaches_spglib(rep, M, rid)
+
+
+def normalizer_tables(rep, T, rid, perm=True):
+    """every tabulated normalizer is an integral affine map on the 1/24 grid, an automorphism of the reference group and an isometry of a
+    generic lattice of the crystal system (so the normalised cell is the same crystal with the same space group); optionally also the
+    induced letter permutation"""
+    from .. import tableobl as TO
+    TO.norm_shape(rep, T, rid)
+    TO.norm_conjugation(rep, T, rid)
+    TO.norm_metric(rep, T, rid)
+    if perm:
+        TO.norm_perm(rep, T, rid)
